@@ -58,3 +58,14 @@ func (fc *Client) VerifTransportCount() int {
 	defer t.transportsMutex.Unlock()
 	return len(t.transports)
 }
+
+// VerifReap runs one pass of the transport reaper now, as its timer does once
+// a minute (false if the client uses another transport).
+func (fc *Client) VerifReap() bool {
+	t, ok := fc.client.Transport.(*destinationTripper)
+	if !ok {
+		return false
+	}
+	t.reaper()
+	return true
+}
